@@ -1613,6 +1613,30 @@ def _collect(suite_id, scenarios, known_list, rule, exhaustive, t0,
     if evaluations < total:
         truncated = True
 
+    # Long random sequences trip several recorded defects at once, which the
+    # per-difference attribution cannot take apart.  An unexplained failure
+    # of such a sequence is first reduced (dropping one mutation at a time
+    # while the same clause keeps failing unexplained); what remains is
+    # classified again.  Explained => the original is an instance of that
+    # recorded class; still unexplained => it is reported, with the reduced
+    # input attached.
+    reduced_budget = 8
+
+    for record in failures:
+        if record['known'] or reduced_budget <= 0:
+            continue
+
+        muts = (record['inputs'] or {}).get('muts')
+
+        if not isinstance(muts, list) or len(muts) <= 4:
+            continue
+
+        reduced_budget -= 1
+        verdict = _reduce_and_classify(suite_id, known_list, record)
+
+        if verdict is not None:
+            record.update(verdict)
+
     def size(record):
         return len(json.dumps(record['inputs'], default=repr))
 
@@ -1661,6 +1685,78 @@ def _collect(suite_id, scenarios, known_list, rule, exhaustive, t0,
         'rule': rule,
         'elapsed': round(time.time() - t0, 2),
     }
+
+
+def _reduce_and_classify(suite_id, known_list, record, max_evals=150):
+    clause = record['clause']
+    cur = copy.deepcopy(record['inputs'])
+    evals = [0]
+
+    def unexplained(scenario):
+        evals[0] += 1
+        out = _eval_task((suite_id, scenario))
+        hits = [(c, o) for c, o in out.get('failures', []) if c == clause]
+
+        if not hits:
+            return None
+
+        entries = [_known_match(known_list, c, scenario, o) for c, o in hits]
+
+        return entries
+
+    changed = True
+
+    while changed and evals[0] < max_evals:
+        changed = False
+
+        for index in range(len(cur['muts'])):
+            cand = copy.deepcopy(cur)
+            del cand['muts'][index]
+            entries = unexplained(cand)
+
+            if entries is not None and any(e is None for e in entries):
+                cur = cand
+                changed = True
+                break
+
+            if evals[0] >= max_evals:
+                break
+
+    entries = unexplained(cur)
+
+    if entries and all(e is not None for e in entries):
+        return {'known': True, 'known_id': entries[0]['id'],
+                'reduced_to': cur['muts']}
+
+    if len(cur['muts']) <= 4:
+        # a short sequence that fails unexplained: reported as it is
+        return {'reduced_to': cur['muts']}
+
+    # Still long: every further removal either repairs the clause or leaves
+    # an explained failure, i.e. the sequence combines recorded defects.
+    # Reduce on "the clause fails" alone and classify the core.
+    changed = True
+
+    while changed and evals[0] < 2 * max_evals:
+        changed = False
+
+        for index in range(len(cur['muts'])):
+            cand = copy.deepcopy(cur)
+            del cand['muts'][index]
+            entries = unexplained(cand)
+
+            if entries is not None:
+                cur = cand
+                changed = True
+                break
+
+    entries = unexplained(cur)
+
+    if entries and all(e is not None for e in entries):
+        return {'known': True, 'known_id': entries[0]['id'],
+                'reduced_to': cur['muts'], 'compound': True}
+
+    return {'reduced_to': cur['muts']}
 
 
 def _replay(suite_id, inputs, clause=None):
@@ -5134,6 +5230,27 @@ KNOWN_C03.extend([
 # --- BEGIN GENERATED WITNESSES ---
 _WITNESS_JSON = r'''
 {
+ "C03|evolver-same-signature|optimizer-rewrites-mutations-in-place": {
+  "spec": "@SEQ_SPEC", "rows": "@SEQ_ROWS", "evolver_parts": [1, 2],
+  "muts": [["AddField", "A", "x", "CharField", {"max_length": 8, "initial": "i'%"}],
+           ["RenameField", "A", "x", "r", {"db_column": "col_r"}],
+           ["RenameField", "A", "a3", "x", {}],
+           ["DeleteField", "A", "r"]]
+ },
+ "C03|evolver-same-schema|optimizer-rewrites-mutations-in-place": {
+  "spec": "@SEQ_SPEC", "rows": "@SEQ_ROWS", "evolver_parts": [1, 2],
+  "muts": [["AddField", "A", "x", "CharField", {"max_length": 8, "initial": "i'%"}],
+           ["RenameField", "A", "x", "r", {"db_column": "col_r"}],
+           ["RenameField", "A", "a3", "x", {}],
+           ["DeleteField", "A", "r"]]
+ },
+ "C03|evolver-same-rows|optimizer-rewrites-mutations-in-place": {
+  "spec": "@SEQ_SPEC", "rows": "@SEQ_ROWS", "evolver_parts": [1, 2],
+  "muts": [["AddField", "A", "x", "CharField", {"max_length": 8, "initial": "i'%"}],
+           ["RenameField", "A", "x", "r", {"db_column": "col_r"}],
+           ["RenameField", "A", "a3", "x", {}],
+           ["DeleteField", "A", "r"]]
+ },
  "C03|batched-same-rows|optimizer-folded-initial-later-wins": {
   "spec": "@SEQ_SPEC", "rows": "@SEQ_ROWS", "evolver_parts": [1, 2],
   "muts": [["AddField", "B", "x", "CharField", {"max_length": 8, "initial": "i'%"}],
